@@ -151,7 +151,14 @@ impl Gen {
         }
         if self.cfg.poison && self.planted.is_empty() {
             // guarantee at least one planted poison per program
-            if let Some(Stmt::Return(e)) = body.pop() {
+            if !matches!(body.last(), Some(Stmt::Return(_))) {
+                // goes in front of every `let` of the body: the guard may only mention globals
+                let genv = self.empty_env(Ctx::Function);
+                let g = self.const_guard(false, &genv);
+                self.planted.push("if_stmt".into());
+                let p = vec![Stmt::Check(Expr::Bool(false), Expr::Todo)];
+                body.insert(0, Stmt::If(vec![(g, p)], None));
+            } else if let Some(Stmt::Return(e)) = body.pop() {
                 let g = self.const_guard(true, &env);
                 self.planted.push("if_expr".into());
                 let p = self.poison_value(&ret, &mut env);
